@@ -52,7 +52,8 @@ Record cfg := mkCfg {
   c_retest : bool;    (* Read re-tests recvQueue when closedChan fires *)
   c_ackstamp : bool;  (* output() stores an ack's seq (nextSend-1) into lastSend *)
   c_win : N;          (* UDP: bound on |sendBuf| (congestion / remote window) *)
-  c_cap : N           (* TCP: bound on segments in flight; 0 = unbounded *)
+  c_cap : N;          (* TCP: bound on segments in flight; 0 = unbounded *)
+  c_rcap : N          (* UDP: segmentTreeCapacity: receive window = c_rcap - |recvBuf| - |recvQueue| *)
 }.
 
 Record state := mkState {
@@ -88,11 +89,12 @@ Definition init : state :=
 
 (* the values of the current source tree *)
 Definition close_wait_iterations : N := Z.to_N C03_closeWaitIterations.
+Definition segment_tree_capacity : N := Z.to_N C03_segmentTreeCapacity.
 Definition current_cfg (tr : transport) (n win cap : N) : cfg :=
-  mkCfg tr n close_wait_iterations true false win cap.
+  mkCfg tr n close_wait_iterations true false win cap segment_tree_capacity.
 (* the tree before fixes/C03-*.diff *)
 Definition prefix_cfg (tr : transport) (n win cap : N) : cfg :=
-  mkCfg tr n close_wait_iterations false true win cap.
+  mkCfg tr n close_wait_iterations false true win cap segment_tree_capacity.
 
 Inductive choice :=
 | CWrite | CClose | CTick | CForce
@@ -150,6 +152,9 @@ Definition recv_input (c : cfg) (st : state) (s : seg) : state :=
                         (negb (q =? nextRecv st))
       | UDP =>
           if q <? nextRecv st then
+            set_peer st (acks st ++ [nextRecv st]) (nextRecv st) (rbuf st) (rqueue st) false (rerr st) (rd st) (rlog st) (gap st)
+          else if c_rcap c <=? lenN (rbuf st) + lenN (rqueue st) then
+            (* receiveWindowSize() <= 0: "dropped because the receive window size is 0"; only an ack goes back *)
             set_peer st (acks st ++ [nextRecv st]) (nextRecv st) (rbuf st) (rqueue st) false (rerr st) (rd st) (rlog st) (gap st)
           else
             let rb := if memN q (rbuf st) then rbuf st else q :: rbuf st in
@@ -364,7 +369,7 @@ Fixpoint repeat_choice (ch : choice) (k : nat) : list choice :=
 
 Definition reads (k : nat) : list choice := repeat_choice RTest k.
 
-Definition canonical (c : cfg) (sent : nat) (have : list nat) (closed : bool) : list choice :=
+Definition canonical_send (c : cfg) (sent : nat) : list choice :=
   let n := N.to_nat (c_n c) in
   let drained := Nat.leb n sent in
   repeat_choice CWrite n ++ [CClose] ++
@@ -376,12 +381,40 @@ Definition canonical (c : cfg) (sent : nat) (have : list nat) (closed : bool) : 
   | UDP =>
       repeat_choice ONew sent ++
       (if drained then [ONew; CTick] else repeat_choice CTick (N.to_nat (c_wait c)) ++ [CForce])
-  end ++
+  end.
+
+Definition canonical_deliver (c : cfg) (have : list nat) : list choice :=
   match c_tr c with
   | TCP => repeat_choice DTcp (length have)
   | UDP => map DUdp have
-  end ++
-  (if closed then match c_tr c with TCP => [DTcp] | UDP => [DUdp (if drained then n else sent)] end else []).
+  end.
+
+Definition canonical_close (c : cfg) (sent : nat) (closed : bool) : list choice :=
+  let n := N.to_nat (c_n c) in
+  let drained := Nat.leb n sent in
+  if closed then match c_tr c with TCP => [DTcp] | UDP => [DUdp (if drained then n else sent)] end else [].
+
+Definition canonical (c : cfg) (sent : nat) (have : list nat) (closed : bool) : list choice :=
+  canonical_send c sent ++ canonical_deliver c have ++ canonical_close c sent closed.
+
+(* the application takes everything that is queued (it keeps up with the arrivals) *)
+Fixpoint drain (c : cfg) (fuel : nat) (st : state) : state :=
+  match fuel with
+  | O => st
+  | S f => match rqueue st with
+           | [] => st
+           | _ :: _ => match step c st RTest with Some st' => drain c f st' | None => st end
+           end
+  end.
+
+Fixpoint deliver_eager (c : cfg) (dels : list choice) (st : state) : option state :=
+  match dels with
+  | [] => Some st
+  | d :: r => match step c st d with
+              | Some st' => deliver_eager c r (drain c (S (length (rqueue st'))) st')
+              | None => None
+              end
+  end.
 
 (* read until the reader is no longer idle (at most fuel Reads); the select takes the closed case when it is ready *)
 Fixpoint read_all (c : cfg) (fuel : nat) (st : state) : state :=
@@ -402,8 +435,62 @@ Fixpoint read_all (c : cfg) (fuel : nat) (st : state) : state :=
       end
   end.
 
-Definition predict (c : cfg) (sent : nat) (have : list nat) (closed : bool) : option state :=
-  match run c init (canonical c sent have closed) with
-  | Some st => Some (read_all c (S (S (N.to_nat (c_n c)))) st)
+(* eager = true: the peer application reads while the data arrives; eager = false: it reads nothing before the
+   close request has arrived (receiver backlog) *)
+Definition predict (c : cfg) (sent : nat) (have : list nat) (closed : bool) (eager : bool) : option state :=
+  match run c init (canonical_send c sent) with
+  | Some st0 =>
+      match (if eager then deliver_eager c (canonical_deliver c have) st0 else run c st0 (canonical_deliver c have)) with
+      | Some st1 =>
+          match run c st1 (canonical_close c sent closed) with
+          | Some st2 => Some (read_all c (S (S (N.to_nat (c_n c)))) st2)
+          | None => None
+          end
+      | None => None
+      end
   | None => None
+  end.
+
+(* ---- hand-off from the underlay event loop to the session (Session.recvChan)
+   The transitions above apply recv_input at the moment a segment is delivered.  In the code the event loop
+   (RunEventLoop -> deliverSegmentToSession) puts every segment of the session, close requests included, into the
+   bounded FIFO channel recvChan with a BLOCKING send, and the session's input loop takes them out one by one
+   (it may itself be parked in waitForRecvQueueSpace while the application does not read).  HDispatch = the event
+   loop's send (enabled only while the channel has room), HInput = the input loop's receive + input(). *)
+Inductive hev := HDispatch (s : seg) | HInput.
+
+Definition hstep (c : cfg) (cap : nat) (x : state * list seg) (e : hev) : option (state * list seg) :=
+  let '(st, ch) := x in
+  match e with
+  | HDispatch s => if Nat.ltb (length ch) cap then Some (st, ch ++ [s]) else None
+  | HInput => match ch with s :: t => Some (recv_input c st s, t) | [] => None end
+  end.
+
+Fixpoint hrun (c : cfg) (cap : nat) (x : state * list seg) (evs : list hev) : option (state * list seg) :=
+  match evs with
+  | [] => Some x
+  | e :: rest => match hstep c cap x e with Some x' => hrun c cap x' rest | None => None end
+  end.
+
+Fixpoint dispatched (evs : list hev) : list seg :=
+  match evs with
+  | [] => []
+  | HDispatch s :: rest => s :: dispatched rest
+  | HInput :: rest => dispatched rest
+  end.
+
+(* a hand-off that lets a close request bypass a full channel: the session is closed directly from the event
+   loop (s.Close()), the input loop exits and what the channel holds is never looked at *)
+Definition hstep_bypass (c : cfg) (cap : nat) (x : state * list seg) (e : hev) : option (state * list seg) :=
+  let '(st, ch) := x in
+  match e with
+  | HDispatch (CloseReq q) =>
+      if Nat.ltb (length ch) cap then Some (st, ch ++ [CloseReq q]) else Some (recv_input c st (CloseReq q), [])
+  | _ => hstep c cap x e
+  end.
+
+Fixpoint hrun_bypass (c : cfg) (cap : nat) (x : state * list seg) (evs : list hev) : option (state * list seg) :=
+  match evs with
+  | [] => Some x
+  | e :: rest => match hstep_bypass c cap x e with Some x' => hrun_bypass c cap x' rest | None => None end
   end.
